@@ -1,11 +1,11 @@
 SPECIFICATION Spec
 CONSTANTS
-  Dims = {2, 3, 5}
+  Dims = {2, 3}
   Solvers_ = {"lu", "lu_factors", "gmres", "cg"}
   DualDims = {2}
-  SliceBy = "global"
+  SliceBy = "grid"
   SwapBlockedSettings = FALSE
-  EmitJson = TRUE
+  EmitJson = FALSE
 INVARIANT RhsLayout
 INVARIANT SolutionLayout
 INVARIANT SettingsHandedOn
